@@ -3,6 +3,7 @@ import Vflow.Model.Ipfix
 import Vflow.Model.V9
 import Vflow.Props.C03
 import Vflow.Props.C06
+import Vflow.Gen.CacheKey
 /-!
 # C04 — data is decoded only with the same exporter's latest template
 
@@ -133,6 +134,30 @@ theorem v9_data_uses_lookup (addr : Bytes) (sid len start fuel : Nat) (st : V9.S
       (let res := V9.setLoop ⟨addr, sid, len, start, t⟩ fuel st
        V9.skipRest ⟨addr, sid, len, start, t⟩ res.1 res.2) := by
   simp [V9.setBody, V9.lookupTpl, hs, hl]
+
+/-! ## Obligations over regenerated facts: how the code keys and consults the cache
+
+`cacheKey addr id = fnv1 (addr ++ be16 id)` in the model is what `getShard` computes (32-bit FNV-1
+over the exporter address followed by the big-endian template id; shard = hash mod shardNo; the map
+is keyed by the hash itself), in both cache files; the decoders look templates up and store them under
+(set id / template id, the datagram's source address), and the peer-RPC path asks for and stores the
+template under exactly the requesting (id, address). A change to any of these statements is a failed
+obligation. -/
+
+def expectedGetShard : List String :=
+  ["b := make([]byte, 2)", "binary.BigEndian.PutUint16(b, id)", "key := append(addr, b...)",
+   "hash := fnv.New32()", "hash.Write(key)", "hSum32 := hash.Sum32()",
+   "return m[uint(hSum32)%uint(shardNo)], hSum32"]
+
+theorem gen_cache_key :
+    Gen.CacheKey.ipfixGetShard = expectedGetShard ∧ Gen.CacheKey.nf9GetShard = expectedGetShard := by
+  decide +kernel
+
+theorem gen_cache_calls :
+    Gen.CacheKey.ipfixDecoderCalls = ["mem.retrieve(setHeader.SetID, d.raddr)", "mem.insert(tr.TemplateID, d.raddr, tr)"] ∧
+    Gen.CacheKey.nf9DecoderCalls = ["mem.retrieve(setHeader.FlowSetID, d.raddr)", "mem.insert(tr.TemplateID, d.raddr, tr)"] ∧
+    Gen.CacheKey.ipfixRpcCalls = ["r.mCache.retrieve(req.ID, req.IP)", "m.insert(req.ID, req.IP, *tr)"] := by
+  decide +kernel
 
 /-! ## Histories of whole messages, any number of exporters
 
